@@ -372,13 +372,60 @@ def overlay_case(draw, formats, tier, tolerances=None):
     return {"cfg": cfg, "sources": sources}
 
 
+@st.composite
+def sandwich_case(draw, formats, tier, tolerances=None):
+    """A run of overlapping layers in which the very same shape with the very same fill occurs more than once, with moved /
+    stretched copies of it in other colours in between - as a shaded stack draws it (A, B, A) - at the top level or inside an
+    opacity group (optionally nested). After reuse the repeated layers are *equal* objects, so anything that finds a layer's
+    position by equality rather than identity confuses them."""
+    from ..gen_svg import placement, transform_cmds, unit_shape, view_box
+    from ..geom import translate, amul
+
+    cfg = draw(font_config(formats, transforms=False, max_upem=4096))
+    if tolerances is not None:
+        cfg["reuse_tolerance"] = draw(st.sampled_from(tolerances))
+    vb = draw(view_box())
+    unit = draw(unit_shape(("polygon", "cubic", "quad", "rect")))
+    _, m = draw(placement(vb, draw(st.sampled_from(["translate", "nuscale", "rotate"]))))
+    step = 0.03 * min(vb[2], vb[3])
+    colours = ["#%06x" % c for c in draw(st.lists(st.integers(0, 0xFFFFFF), min_size=2, max_size=3, unique=True))]
+    n = draw(st.integers(3, 6))
+    # which layers are exact repeats of layer 0 (same place, same fill); the others are shifted copies in another colour
+    pattern = draw(st.sampled_from(["aba", "abab", "abba", "aab", "random"]))
+    if pattern == "random":
+        kinds = [draw(st.sampled_from("ab")) for _ in range(n)]
+        kinds[0] = "a"
+    else:
+        kinds = list((pattern * 3)[:max(n, len(pattern))])
+    nodes = []
+    for i, k in enumerate(kinds):
+        if k == "a":
+            nodes.append({"t": "p", "d": [list(c) for c in transform_cmds(unit, m)], "fill": {"k": "solid", "c": colours[0]}, "op": 1.0, "tag": "lib0:identity"})
+        else:
+            dx, dy = draw(st.integers(1, 4)) * step, draw(st.integers(-3, 3)) * step
+            nodes.append({"t": "p", "d": transform_cmds(unit, amul(translate(dx, dy), m)), "fill": {"k": "solid", "c": colours[1 + (i % (len(colours) - 1))]}, "op": 1.0,
+                          "tag": "lib0:translate"})
+    wrap = draw(st.sampled_from(["none", "group", "group", "nested"]))
+    if wrap != "none":
+        grp = {"t": "g", "op": round(draw(st.floats(0.2, 0.9)), 3), "kids": nodes}
+        if wrap == "nested" and len(nodes) >= 3:
+            grp["kids"] = [{"t": "g", "op": round(draw(st.floats(0.2, 0.9)), 3), "kids": nodes[:-1]}, nodes[-1]]
+        nodes = [grp]
+    sources = [{"model": {"vb": vb, "nodes": nodes}, "cps": [0xE000]}]
+    if draw(st.booleans()):
+        # a second glyph registers the shape first, so that every layer of the stack is a reuse
+        first = {"t": "p", "d": transform_cmds(unit, amul(translate(-2 * step, step), m)), "fill": {"k": "solid", "c": colours[-1]}, "op": 1.0, "tag": "lib0:translate"}
+        sources = [{"model": {"vb": vb, "nodes": [first]}, "cps": [0xE000]}, dict(sources[0], cps=[0xE001])]
+    return {"cfg": cfg, "sources": sources}
+
+
 def enumerate_cases(tier):
     yield from css_name_rows(["glyf_colr_1"])
 
 
 def cases(tier):
     return st.one_of(vector_case(FORMATS, tier), vector_case(FORMATS, tier), vector_case(FORMATS, tier), vector_case(FORMATS, tier), grid_case(FORMATS, tier), prefix_pair_case(FORMATS, tier),
-                     far_reuse_case(FORMATS, tier), far_reuse_case(FORMATS, tier), paint_variants_case(FORMATS, tier), overlay_case(FORMATS, tier))
+                     far_reuse_case(FORMATS, tier), far_reuse_case(FORMATS, tier), paint_variants_case(FORMATS, tier), overlay_case(FORMATS, tier), sandwich_case(FORMATS, tier))
 
 
 def shrink(case):
